@@ -185,6 +185,42 @@ def check_setting(part, row, table_by_number):
             part.fail("lookup-reduced-str-raise:%s" % sk, "LATT+SYMM(string) round trip of %s raised %s" % (sk, type(e).__name__), case)
     except Exception as e:
         part.fail("reduce-raise:%s" % sk, "latt/reduced_symmetry_operations of %s raised %r" % (sk, e), case)
+    # lookup from a genuine SHELX description produced by the REFERENCE (not by the library's own latt / reduction):
+    # LATT names the true centring (incl. B = 6, which the library's table never reports), its sign the presence of -1 at the
+    # origin, SYMM is one representative per coset - in table order and reversed
+    try:
+        from mc.ref import restext
+
+        cent = restext.CENTRING
+        pure_t = {op[1] for op in ops if op[0] == symm.IDENTITY_R and op[1] != (0, 0, 0)}
+        n_latt = [k for k, v in cent.items() if set(v) == pure_t]
+        if len(n_latt) == 1:
+            ref_latt = n_latt[0] * (1 if (symm.MINUS_I, (0, 0, 0)) in set(ops) else -1)
+            for order_name, seq in (("table", ops), ("reversed", ops[::-1])):
+                lattice_ops = restext.expand_latt([], ref_latt)   # identity (and -1) times the centring vectors
+                reps, covered = [], set(lattice_ops)
+                for op in seq:
+                    if op in covered:
+                        continue
+                    reps.append(op)
+                    covered |= restext.expand_latt([op], ref_latt)
+                if restext.expand_latt(reps, ref_latt) != set(ops):
+                    part.fail("harness:ref-reduction:%s" % sk, "reference reduction of %s does not expand back" % sk, case)
+                    continue
+                lib_ops = [SymmetryOperation.from_string_code(symm.canonical_string(o)) for o in reps]
+                part.trace()
+                try:
+                    found = SpaceGroup.from_symmetry_operations(lib_ops, expand_latt=ref_latt)
+                    fcodes = sorted(int(x.integer_code) for x in found.symmetry_operations)
+                    if found.international_tables_number != n or fcodes != sorted(codes):
+                        part.fail("lookup-shelx:LATT%d:%s" % (abs(ref_latt), sk), "genuine SHELX description of %s (LATT %d + %d SYMM, %s order) is identified as %d:%s"
+                                  % (sk, ref_latt, len(reps), order_name, found.international_tables_number, found.choice), case)
+                except Exception as e:
+                    part.fail("lookup-shelx-raise:LATT%d:%s" % (abs(ref_latt), sk), "genuine SHELX description of %s (LATT %d + %d SYMM, %s order) raised %s"
+                              % (sk, ref_latt, len(reps), order_name, type(e).__name__), case)
+                outcome.append(ref_latt)
+    except Exception as e:
+        part.fail("harness:shelx-description:%s" % sk, "building the reference SHELX description raised %r" % e, case)
     part.outcome(tuple(outcome))
     part.nontriv(sk)
     if n in (1, 48, 148, 227):
